@@ -2,22 +2,22 @@
 """Prints one markdown table row per property from /verif/evidence/*.json (what the last run of each check covered)."""
 import json, os, sys
 WHAT = {
- 'C01': ('S', 'pigeonhole/matching/counting families: `Enc xor Spec` unsat per instance, sat/unsat and model counts against independent criteria; networkx/grown/with-a-past graph variants; threshold points; determinism after other calls'),
- 'C02': ('S', 'graph families incl. the exists-projection for dominating set and Tseitin with every charge vector (non-boolean charges too); K10/K11 parities'),
+ 'C01': ('S', 'pigeonhole/matching/counting families: `Enc xor Spec` unsat per instance, sat/unsat and model counts against independent criteria; networkx (also objects with a past)/grown/with-a-past graph variants; rebuild after the caller edited graphs handed out by the public constructors; threshold points; determinism after other calls'),
+ 'C02': ('S', 'graph families (ramlb with k != s up to 5) incl. the exists-projection for dominating set and Tseitin with every charge vector (non-boolean charges too); K10/K11 parities'),
  'C03': ('S + T', 'contradictions by per-schema entailment, Pitfall on every regular graph, Ramsey/vdW/Pythagorean by equivalence; T: progression bounds for all N'),
- 'C04': ('X sym + S + T', 'builders with an unbounded symbolic constant; mapping builders (unary, sparse, binary) incl. ranges up to 33; caller edits `forbid()` results; T: thresholds for all n'),
+ 'C04': ('X sym + S + T', 'builders with an unbounded symbolic constant; mapping builders (unary, sparse, binary) incl. ranges up to 33; caller edits `forbid()` results; several mappings in one formula; T: thresholds for all n'),
  'C05': ('S', '(formula, transformation) pairs against the documented gadget; compression with reused graph objects; arities up to 17'),
- 'C06': ('X enum', 'writer/reader round trips, 3-line menu texts, separators, 0..4097 clauses, two reads in one process, files by name (byte-level FS)'),
- 'C07': ('X sym + sweeps', 'self-composition of 47 command lines, library generators, 24 library calls on equal-but-distinct objects, dense requests under non-MT seeded streams; auxiliary PYTHONHASHSEED and working-directory sweeps'),
+ 'C06': ('X enum', 'writer/reader round trips, 3-line menu texts, separators, 0..4097 clauses, two reads in one process, encode-extend-encode (incl. clause-free growth), files by name (byte-level FS)'),
+ 'C07': ('X sym + sweeps', 'self-composition of 53 command lines (incl. lattice/shift + random modifier), library generators, 24 library calls on equal-but-distinct objects, dense requests under non-MT seeded streams; auxiliary PYTHONHASHSEED and working-directory sweeps'),
  'C08': ('S', 'CNF-vs-OPB equivalence for every family point, every shared sub-command (incl. dimacs files), seeded random command lines, threshold points'),
- 'C09': ('X enum + RNG stub', 'all RNG outcomes for 12 formulas x 8 switch combinations x 3 entry points; explicit arguments as list/tuple/range; independence of result and input'),
- 'C10': ('X enum + monitor', 'histories of 2-3 steps incl. bulk insertion and reuse of passed lists; monitored runs of the S boxes'),
+ 'C09': ('X enum + RNG stub', 'all RNG outcomes for 12 formulas x 8 switch combinations x 3 entry points; explicit arguments as list/tuple/range, one explicit component mixed with random/fixed ones; independence of result and input'),
+ 'C10': ('X enum + monitor', 'histories of 2-3 steps incl. bulk insertion, lazy clause generators that allocate variables, reuse of passed lists; monitored runs of the S boxes'),
  'C11': ('T + X sym + enum', 'T: index arithmetic for unbounded sizes; X: every group type, wildcards, out-of-domain and wrong-arity indices, histories, edited `to_index` results'),
  'C12': ('X enum', 'strict OPB reader and LaTeX row reader; pages 0..106 rows; 63..2048 rows; render-extend-render; names with blanks'),
  'C13': ('X enum + RNG stub, S', 'all draw outcomes on small sizes; seeds and fallback-forcing streams on the (k,n,m,planted) box with planted assignments in every container/order'),
- 'C14': ('X enum', 'round trips in all formats (incl. complete bipartite, 12-13 vertex skeletons), in-house readers on menu texts, write-mutate-write, read-write-read with comments'),
- 'C15': ('X enum + RNG stub', 'every construction and modifier under all draw outcomes (small) and adversarial streams; `save` incl. complete bipartite'),
- 'C16': ('X enum', 'one step from every small graph, 2-step histories under three observation schedules, grow-then-add, seven edge-list carriers; networkx sweep with all views'),
+ 'C14': ('X enum', 'round trips in all formats (incl. complete bipartite, 12-13 vertex skeletons), in-house readers on menu texts, write-mutate-write, read-write-read with comments, a rejected and a valid text read in one call'),
+ 'C15': ('X enum + RNG stub', 'every construction and modifier under all draw outcomes (small) and adversarial streams; `regular` under streams made of its own dead-ending attempts; `save` incl. complete bipartite'),
+ 'C16': ('X enum', 'one step from every small graph, 2-step histories under three observation schedules, grow-then-add, seven edge-list carriers, 3-pair batches refused at any position; networkx sweep with all views'),
  'C17': ('X enum', 'argv grammar vs library: families, chains, arities 1..9, degenerate file graphs, lattice pairs, save, output variants incl. LaTeX rows'),
  'C18': ('X enum', '74 templates x token menus through `main()`; stdin tools; post-parse errors; fallback paths under 5 streams; 22 x 5 OS errors; LaTeX pages'),
  'C19': ('X enum + sym', 'transformations and chains (input untouched, provenance, no aliasing in either direction), builders, networkx arguments, planted assignments'),
